@@ -368,6 +368,7 @@ def depends(rep, repo):
     c03.parity(rep, K)
     c03.bounds(rep, K)
     c03.siblings(rep, K)
+    c03.stimulus_table(rep, repo, rid='C03.stimulus')     # the input transition times reach the kernel unchanged (s[1] -> waveform entry)
     c07.schedule_rules(rep, repo)
     c08.map_rules(rep, repo)
     c06.dataset_selection(rep, repo, repo.mod('wave_sim'))
